@@ -506,7 +506,12 @@ def overlap_jobs():
     lb = {'fn': 'load', 'data': f(2, 480, tb).hex(), 'want': want_load(2, 480, tb)}
     mods = ['mido.midifiles.midifiles', 'mido.midifiles.meta', 'mido.midifiles.tracks', 'mido.messages.encode',
             'mido.messages.decode', 'mido.messages.messages']
-    return [{'modules': mods, 'jobs': [[sa], [sb, lb]], 'k': 1, 'fresh': False},
+    # a file that must be refused (clip=False, a sysex byte above 127) is loaded while the other thread measures and saves
+    from ..coldstart import file_activity
+    bad = bytes.fromhex('4d546864000000060000000100604d54726b0000000b00f0030180f700ff2f00')
+    refuse = {'fn': 'load', 'data': bad.hex(), 'want': '__sequential__'}
+    return [{'modules': mods + ['mido.messages.checks'], 'jobs': [file_activity(), [refuse, lb, refuse]], 'k': 1, 'fresh': False},
+            {'modules': mods, 'jobs': [[sa], [sb, lb]], 'k': 1, 'fresh': False},
             {'modules': mods, 'jobs': [[la], [lb, sb]], 'k': 1, 'fresh': False},
             {'modules': mods, 'jobs': [[sa, la], [sb, lb]], 'k': 1, 'fresh': True, 'limit': 60}]
 
